@@ -145,7 +145,7 @@ def boundaries(p):
                 depth = 0
         else:
             depth = 0
-        out.append((i, depth, closed, cls))
+        out.append((i, depth, closed, cls, j))
     return out
 
 
@@ -160,8 +160,13 @@ def oracle_b(camp, p, d, per_prog, cli_every, state, avoid_line=None, tag="confo
         return
     camp.count("B-programs:" + tag)
     picks = [bs[d.int(0, len(bs) - 1)] for _ in range(per_prog)] if per_prog else bs
-    for (i, depth, closed, cls) in picks:
+    for (i, depth, closed, cls, opener) in picks:
         frags = [d.choice(FRAGMENTS)] if per_prog else [d.choice(FRAGMENTS), d.choice(FRAGMENTS)]
+        if not closed and p.variant and p.variant[2] == opener:
+            # the fragment completes the (unterminated) opener line into one statement that a rule does recognise; when that line carries
+            # the member's only violation nothing is left to report, and the property promises nothing about text a rule recognises
+            camp.count("B:open-boundary-behind-the-violating-line(skipped)")
+            continue
         for frag in frags:
             q = p.copy()
             q.lines.insert(i, Line(TABS(depth) + [Lx(frag, "garbage")], "garbage", depth, -1))
@@ -203,7 +208,7 @@ def focused(camp, p, d, state, cli_every):
             if r0.status not in ("OK", "Error"):
                 continue
             q.variant = (oid, cls, li)
-            for (i, depth, closed, bcls) in boundaries(q):
+            for (i, depth, closed, bcls, _) in boundaries(q):
                 if i == li + 1 and closed:
                     z = q.copy()
                     frag = d.choice(FRAGMENTS)
